@@ -1566,13 +1566,24 @@ func (w *walker) lockOp(name string, x ast.Expr) bool {
 	if !ok {
 		return false
 	}
-	if name == "Lock" || name == "RLock" {
+	// a mutex held through RLock is shared: it is recorded under its own key and, in solve(), counts
+	// as a common lock only for READ accesses (a write under RLock excludes nobody)
+	switch name {
+	case "Lock":
 		w.acquire(k)
-	} else {
+	case "RLock":
+		w.acquire(sharedKey(k))
+	case "Unlock":
 		w.release(k)
+	case "RUnlock":
+		w.release(sharedKey(k))
 	}
 	return true
 }
+
+const sharedPrefix = "r!"
+
+func sharedKey(k lockKey) lockKey { return lockKey(sharedPrefix + string(k)) }
 
 func (w *walker) acquire(k lockKey) {
 	w.st.added[k] = true
@@ -1586,6 +1597,7 @@ func (w *walker) release(k lockKey) {
 		w.st.removed[k] = true
 	}
 	cls, base := keyBase(k)
+	cls = strings.TrimPrefix(cls, sharedPrefix)
 	for x := range w.st.added {
 		xc, xb := keyBase(x)
 		// pointers found in the registry stop being live when the registry lock goes;
@@ -1962,6 +1974,9 @@ func (w *walker) deferStmt(s *ast.DeferStmt) {
 		switch se.Sel.Name {
 		case "Unlock", "RUnlock":
 			if k, ok := w.lockKeyOf(se.X); ok {
+				if se.Sel.Name == "RUnlock" {
+					k = sharedKey(k)
+				}
 				w.deferUnl[k] = true
 				return // held until the function returns
 			}
